@@ -293,17 +293,18 @@ type DamageHit struct {
 }
 
 type DamageOut struct {
-	Payload      PayloadSpec
-	FileLen      int
-	FileSHA      string
-	Boundaries   int
-	Truncations  int
-	Flips        int
-	Randoms      int
-	Specials     int
-	SentinelsRun int
-	Miss         int
-	HitEqual     int
+	Payload          PayloadSpec
+	FileLen          int
+	FileSHA          string
+	Boundaries       int
+	Truncations      int
+	Flips            int
+	Randoms          int
+	Specials         int
+	SentinelsRun     int
+	SentinelsDrifted int
+	Miss             int
+	HitEqual         int
 	// hits with different content, split by what the independent strict reader says about the file
 	HitDiffIntegrity int // strict reader rejects the file (checksum/length/stream error): integrity check missing
 	HitDiffOther     int
@@ -481,9 +482,14 @@ func ChildDamage(args []string) int {
 		if sn.Payload != job.Payload {
 			continue
 		}
-		if sn.FileSHA != out.FileSHA || sn.Offset >= len(orig) {
-			out.Inconclusive = append(out.Inconclusive, "sentinel "+sn.Name+": entry bytes drifted")
+		if sn.Offset >= len(orig) {
+			out.Inconclusive = append(out.Inconclusive, "sentinel "+sn.Name+": offset beyond the entry")
 			continue
+		}
+		if sn.FileSHA != out.FileSHA {
+			// the entry encoding changed (e.g. after a serializer fix): the case no longer is the
+			// recorded witness, but it still is a valid damaged-entry case for the same oracle
+			out.SentinelsDrifted++
 		}
 		out.SentinelsRun++
 		if sn.Op == "trunc" {
